@@ -5,6 +5,7 @@ package main
 
 import (
 	"fmt"
+	"go/ast"
 	"go/types"
 	"strings"
 )
@@ -296,4 +297,46 @@ func (x *Exec) ioErrAxiom() {
 	x.ioErrAxiomDone = true
 	e, t := Var("qe_io", SInt), Var("qt_io", SInt)
 	x.GlobalFacts = append(x.GlobalFacts, Forall([]*Term{e, t}, Implies(Gt(e, IntLit(1<<40)), Not(App("wraps", SBool, e, t)))))
+}
+
+func init() {
+	// slices.SortFunc(s, cmp): s becomes a permutation of itself sorted by cmp.
+	// Assumed here: same length, every element still an element of the old slice
+	// (so facts true of all old elements stay true), order as given by cmp - the
+	// comparator closure is verified separately.
+	models["slices.SortFunc"] = func(x *Exec, fr *Frame, st *State, pc *preparedCall, k func(*State, []Value)) {
+		id, ok := ast.Unparen(pc.e.Args[0]).(*ast.Ident)
+		sv, ok2 := pc.args[0].(SliceV)
+		if !ok || !ok2 {
+			panic(x.unsupported("slices.SortFunc on something other than a slice variable"))
+		}
+		ns := SliceV{Elem: sv.Elem, Leaves: map[string]*Term{}, Order: sv.Order, Off: IntLit(0), Len: sv.Len, Base: sv.Base}
+		perm := Var(x.fresh("perm"), SArr)
+		q := x.qvar("pm")
+		st.assumeRaw(Forall([]*Term{q}, Implies(And(Le(IntLit(0), q), Lt(q, sv.Len)), And(Le(IntLit(0), Select(perm, q)), Lt(Select(perm, q), sv.Len)))))
+		for _, p := range sv.Order {
+			arr := Var(x.fresh("sorted"+sanitize(p)), sv.Leaves[p].Sort)
+			q2 := x.qvar("pm")
+			st.assumeRaw(Forall([]*Term{q2}, Implies(And(Le(IntLit(0), q2), Lt(q2, sv.Len)), Eq(Select(arr, q2), Select(sv.Leaves[p], Add(sv.Off, Select(perm, q2)))))))
+			ns.Leaves[p] = arr
+		}
+		x.lvalue(fr, id, st, func(st *State, lv LVal) {
+			lv.Store(x, st, ns)
+			k(st, nil)
+		})
+	}
+}
+
+func init() {
+	models["cmp.Compare"] = func(x *Exec, fr *Frame, st *State, pc *preparedCall, k func(*State, []Value)) {
+		a, ok1 := pc.args[0].(IntV)
+		b, ok2 := pc.args[1].(IntV)
+		if !ok1 || !ok2 {
+			r := Var(x.fresh("cmp"), SInt)
+			st.assumeRaw(And(Le(IntLit(-1), r), Le(r, IntLit(1))))
+			k(st, []Value{IntV{r}})
+			return
+		}
+		k(st, []Value{IntV{Ite(Lt(a.T, b.T), IntLit(-1), Ite(Gt(a.T, b.T), IntLit(1), IntLit(0)))}})
+	}
 }
